@@ -723,7 +723,7 @@ def judge_msm_prog(ctx, rec, res, g):
 # ---------------------------------------------------------------------------- hashing
 
 def xmd_blocks(x, n):
-    b = {"sha256": 32, "sha512": 64}.get(x)
+    b = {"sha256": 32, "sha512": 64, "sha224": 28, "sha384": 48, "sha512_224": 28, "sha512_256": 32}.get(x)
     return None if b is None else -(-n // b)
 
 
